@@ -22,7 +22,7 @@ replaces it (`TaskQueue.add` in RT; NRT after repair D12).
 
 Routine bodies: `yield d`, yield a non-number (`hang`), `log`, `send`, `spawn r clock`
 (create if needed — inheriting the creator's random generator — and `play(clock, quant=0)`),
-`setTempo i x`, `pause/resume/stop r` (no-ops on a routine not yet created), `wait/signal c`,
+`setTempo i x`, `setBeats i b`, `pause/resume/stop r` (no-ops on a routine not yet created), `wait/signal c`,
 `seed n` (a new generator object), `draw`, `pull r` (`r.next()` on a sub-stream routine from inside
 the body), `raise` (the body fails: logged by the clock, the routine is Done).
 Core Lean only (loaded by the drivers of C05 and C10).
@@ -49,6 +49,11 @@ def Tempo.setTempo (p : Tempo) (t x : Rat) : Tempo :=
   let beats := p.secs2beats t
   { tempo := x, beatDur := 1 / x, baseBeats := beats, baseSecs := p.beats2secs beats }
 
+/-- `TempoClock.beats = b` at logical time `t`: the clock now reads beat `b` at `t` (tasks scheduled
+    before beat `b` become overdue and are performed at once, each reading its own — past — time). -/
+def Tempo.setBeats (p : Tempo) (t b : Rat) : Tempo :=
+  { tempo := p.tempo, beatDur := 1 / p.tempo, baseBeats := b, baseSecs := t }
+
 inductive St where
   | init | suspended | paused | done
 deriving Repr, DecidableEq, Inhabited
@@ -60,6 +65,7 @@ inductive Act where
   | send (b : Nat)
   | spawn (r : Nat) (c : Clk)
   | setTempo (i : Nat) (x : Rat)
+  | setBeats (i : Nat) (b : Rat)
   | pause (r : Nat)
   | resume (r : Nat)
   | stop (r : Nat)
@@ -248,6 +254,9 @@ def runActs (s : S) (x : Ctx) : List Act → S
         runActs ({ s with tempi := fun j => if j = i then (s.tempi i).setTempo s.mainSecs v
                                            else s.tempi j }.retime (.tempo i)) x rest
       else runActs (s.emit (.refused x.rid x.rid)) x rest
+    | .setBeats i b =>
+      runActs ({ s with tempi := fun j => if j = i then (s.tempi i).setBeats s.mainSecs b
+                                         else s.tempi j }.retime (.tempo i)) x rest
     | .pause r =>
       if r = x.rid then runActs (s.emit (.refused x.rid r)) x rest
       else if !(s.rts r).created then runActs s x rest
